@@ -66,6 +66,44 @@ Theorem C11_listing_consistent :
 Proof. intros n kinds sched Hk. exact (s5_all_schedules n kinds Hk sched). Qed.
 Print Assumptions C11_listing_consistent.
 
+(* Atomicity between admin operations on one name: any number of concurrent AddBackend calls with ONE name, under EVERY
+   schedule: the name is never listed twice, and once every call has returned exactly one was answered "added" and all the
+   others were refused (a refused add changed nothing).  (Step-level model Model/Conc.v scenario 6: an add is one critical
+   section; tied to the real code by schedule replay, where a duplicate check outside the write lock shows as a second
+   yield and as two calls answered "added".) *)
+Theorem C11_same_name_adds :
+  forall n sched,
+    let ths := repeat add_same n in
+    let ts0 := repeat (mkTS 0 (Some 0)) n in
+    let s := fst (fst (run_sched ths [1; 2] ts0 sched [])) in
+    let ts := snd (fst (run_sched ths [1; 2] ts0 sched [])) in
+    count_id DUP_NAME s <= 1 /\ count_id DUP_NAME s = cnt1 ts
+    /\ ((1 <= n)%nat -> all_done ts = true -> length ts = n ->
+        count_id DUP_NAME s = 1 /\ Forall (fun st => ts_local st = 1 \/ ts_local st = 2) ts).
+Proof. exact s6_all_schedules. Qed.
+Print Assumptions C11_same_name_adds.
+
+Example C11_same_name_nonvacuous : fst (s6_run 3 [1; 0; 2; 1; 0; 2]) = [1; 2; 1; 2] /\ s6_ok (fst (s6_run 3 [1; 0; 2; 1; 0; 2])) = true.
+Proof. vm_compute. split; reflexivity. Qed.
+
+(* Requests arriving during a change are served: any number of requests choosing their backend (findHealthyBackend, round robin)
+   while AddBackend / RemoveBackend calls change the pool under them, under EVERY schedule: a selection that has returned holds a
+   backend of the deployment, never none.  (Step-level model Model/Conc.v scenario 7; tied to the real code by schedule replay,
+   where a selection that keeps the balancer's lock across its sections - and so blocks, or deadlocks with, a waiting writer -
+   never returns.) *)
+Theorem C11_selection_during_changes :
+  forall kinds sched,
+    let ths := map s7_thread kinds in
+    let ts0 := map (fun _ : Z => mkTS (([] : list Z), 0) (Some 0)) kinds in
+    let ts := snd (fst (run_sched ths (mkS7 [1; 2; 3] 0) ts0 sched [])) in
+    forall i st, nth_error kinds i = Some 50 -> nth_error ts i = Some st -> ts_pc st = None ->
+      In (snd (ts_local st)) [1; 2; 3; 7].
+Proof. exact s7_all_schedules. Qed.
+Print Assumptions C11_selection_during_changes.
+
+Example C11_selection_nonvacuous : fst (s7_run [50; 52; 51] [0; 1; 0; 0; 2; 0; 0; 0; 0]) = [0; 1; 1; 1; 2].
+Proof. vm_compute. reflexivity. Qed.
+
 Example C11_listing_nonvacuous :
   fst (s5_run 3 [30; 42] [0; 0; 1; 0; 0]) = [1; 2; 3; -1; 1; 3].
 Proof. vm_compute. reflexivity. Qed.
